@@ -474,7 +474,7 @@ pub fn run_case(rt: &tokio::runtime::Runtime, line: &str) -> String {
             format!("fromranges {}", rle(&owners))
         }
         "route" => run_route(rt, &toks[1..]),
-        k if k == "nodes" || k == "topo" => crate::topo::run_case(rt, &toks),
+        k if k == "nodes" || k == "pnodes" => crate::topo::run_case(rt, &toks),
         k => format!("unknown-kind {}", k),
     }
 }
